@@ -265,9 +265,7 @@ def check(ctx):
     helper_specs.check(ctx, "C02.f", ["fullc"])
     # ---------------- (g) the interpolation / extrapolation kernels select / insert are parameterised with (shared with C20.a)
     ctx.import_clauses("C20", {"C20.a"}, "C02.g", minimum=6)
-    # ---------------- (h) select / insert as decision tables (every branch: scalar / tensor time, exact / off-grid, refusals)
-    from .. import tables
-    tables.check(ctx, "C02.h", [
-        ("RecordTensor", "select", "plain", "", "time-indexed read through the interpolation protocol"),
-        ("RecordTensor", "insert", "plain", "", "time-indexed write through the extrapolation protocol"),
-    ])
+    # (h) select / insert as decision tables: registered in sa/tables/registry.py (rule C02.t)
+    # ---------------- (i) the record's step time / duration setters and the write primitive select / insert rely on (shared with C13, C01)
+    ctx.import_clauses("C13", {"C13.b", "C13.t"}, "C02.i", pick=lambda s: "RecordTensor.dt" in s or "RecordTensor.duration" in s, minimum=4)
+    ctx.import_clauses("C01", {"C01.d", "C01.t"}, "C02.j", pick=lambda s: "write" in s, minimum=3)
